@@ -718,11 +718,30 @@ func checkIsParamAllowed(c *core.Ctx, genPkg, irPkg *packages.Package, r *core.R
 			r.Pass(fmt.Sprintf("ir.%s: refused (not implemented)", k))
 			continue
 		}
-		// must recurse into each component
+		// must recurse into each component — in the arm itself or in a helper of the package the arm calls (the loop
+		// over the struct's fields may live in a function of its own)
+		armNodes := []ast.Node{cc}
+		ast.Inspect(cc, func(n ast.Node) bool {
+			ce, ok := n.(*ast.CallExpr)
+			if !ok {
+				return true
+			}
+			if id, ok := ce.Fun.(*ast.Ident); ok && id.Name != "isParamAllowed" {
+				if hd := funcDecl(genPkg, id.Name); hd != nil && hd.Body != nil {
+					armNodes = append(armNodes, hd.Body)
+				}
+			}
+			return true
+		})
+		inspectArm := func(fn func(ast.Node) bool) {
+			for _, nd := range armNodes {
+				ast.Inspect(nd, fn)
+			}
+		}
 		for _, comp := range comps {
 			found := false
 			nonRoot := true
-			ast.Inspect(cc, func(n ast.Node) bool {
+			inspectArm(func(n ast.Node) bool {
 				ce, ok := n.(*ast.CallExpr)
 				if !ok {
 					return true
@@ -736,9 +755,26 @@ func checkIsParamAllowed(c *core.Ctx, genPkg, irPkg *packages.Package, r *core.R
 				}
 				if comp == "Fields" && strings.HasSuffix(arg, ".Type") {
 					// for _, field := range t.Fields { isParamAllowed(field.Type, …) }
+					// the arm hands t.Fields to a helper that ranges over its parameter
+					passesFields := false
 					ast.Inspect(cc, func(m ast.Node) bool {
-						if rs, ok := m.(*ast.RangeStmt); ok && strings.HasSuffix(types.ExprString(rs.X), ".Fields") {
-							found = true
+						if hc, ok := m.(*ast.CallExpr); ok {
+							for _, a := range hc.Args {
+								if strings.HasSuffix(types.ExprString(a), ".Fields") {
+									passesFields = true
+								}
+							}
+						}
+						return true
+					})
+					inspectArm(func(m ast.Node) bool {
+						if rs, ok := m.(*ast.RangeStmt); ok {
+							if strings.HasSuffix(types.ExprString(rs.X), ".Fields") {
+								found = true
+							}
+							if _, isID := rs.X.(*ast.Ident); isID && passesFields && m.Pos() > cc.End() || isID && passesFields && m.End() < cc.Pos() {
+								found = true
+							}
 						}
 						return true
 					})
@@ -750,7 +786,7 @@ func checkIsParamAllowed(c *core.Ctx, genPkg, irPkg *packages.Package, r *core.R
 						// nested object: `x := field.Inline != ir.InlineNone && field.Type.Is(ir.KindMap)` may stand
 						// in the root position for struct fields
 						if ok && k == "KindStruct" {
-							ast.Inspect(cc, func(m ast.Node) bool {
+							inspectArm(func(m ast.Node) bool {
 								if as, isAs := m.(*ast.AssignStmt); isAs && len(as.Lhs) == 1 && len(as.Rhs) == 1 && types.ExprString(as.Lhs[0]) == id.Name {
 									rhs := types.ExprString(as.Rhs[0])
 									if strings.Contains(rhs, ".Inline != ir.InlineNone") && strings.Contains(rhs, "ir.KindMap") && strings.Contains(rhs, "&&") {
